@@ -1107,6 +1107,38 @@ def rw_callpads(toks, rep):
     return toks
 
 
+def _find_const_anywhere(repo, rel, name):
+    """`const NAME: T = <literal / constant expression>;` declared anywhere in `rel` (also inside a function body), else in
+    exactly one other source file of the crate; returns (file, text with `pub`) or None.  Only initializers without calls."""
+    rx = re.compile(r"(?:pub(?:\([^)]*\))?\s+)?const\s+" + re.escape(name) + r"\s*:\s*[^=;]+=\s*[^;]*;")
+    def scan(path):
+        try:
+            txt = open(path).read()
+        except OSError:
+            return None
+        m = rx.search(txt)
+        if not m:
+            return None
+        t = re.sub(r"//[^\n]*", "", m.group(0))
+        t = re.sub(r"^pub(\([^)]*\))?\s+", "", t)
+        init = t.split("=", 1)[1]
+        if re.search(r"[A-Za-z_]\w*\s*\(", init):
+            return None
+        return "pub " + t
+    t = scan(os.path.join(repo, rel))
+    if t:
+        return rel, t
+    hits = []
+    for root, _d, files in os.walk(os.path.join(repo, "src")):
+        for f in files:
+            if f.endswith(".rs"):
+                pth = os.path.join(root, f)
+                t = scan(pth)
+                if t:
+                    hits.append((os.path.relpath(pth, repo), t))
+    return hits[0] if len(hits) == 1 else None
+
+
 MUT_BINDINGS: list = []   # unit header `//! mut_bindings: Path::Variant ...`: `Path::Variant(x)` patterns bind `mut x`
 
 
@@ -1597,6 +1629,23 @@ def build(template_text: str, repo: str, unit: str) -> Built:
                 try:
                     citem, _ = sf.find(kind="const", name=cname)
                 except AnchorLost:
+                    # R15c: a constant declared inside a function of this file, or in another file of the crate (unique by name)
+                    got = _find_const_anywhere(repo, rel, cname)
+                    if got is None:
+                        continue
+                    crel, ctext = got
+                    # constants its initializer names are pulled in first
+                    for dep in sorted(set(re.findall(r"\b[A-Z][A-Z0-9_]{2,}\b", ctext.split("=", 1)[1] if "=" in ctext else ""))):
+                        if dep == cname or dep in auto_consts or re.search(r"\b(const|static)\s+" + re.escape(dep) + r"\b", template_text + "\n".join(out_lines)):
+                            continue
+                        g2 = _find_const_anywhere(repo, rel, dep)
+                        if g2 is not None:
+                            emit(f"// ---- auto-extracted (R15c) {g2[0]} :: const {dep} ----")
+                            emit(g2[1]); auto_consts.add(dep)
+                            rep.append(("R15", f"const {dep} of {g2[0]} extracted automatically (named by const {cname})"))
+                    emit(f"// ---- auto-extracted (R15c) {crel} :: const {cname} ----")
+                    emit(ctext); auto_consts.add(cname)
+                    rep.append(("R15", f"const {cname} of {crel} extracted automatically (function-local or other file)"))
                     continue
                 ctoks = rw_vis(rw_strip_comments(list(sf.toks[citem.start:citem.end]), rep), rep)
                 fs = next((t for t in ctoks if t.kind not in (WS, COMMENT)), None)
